@@ -601,6 +601,19 @@ def check_recordings(ctx, driver, module, files, open_kf, variant_of=lambda f: "
                     break
                 if rr["rc"] != 0 or rr["errors"]:
                     raise Infra("re-validation failed: " + rr["out"][-1500:])
+            if not confirmed and variant == "star":
+                # a pure helper whose answer depends on what was called before it (state kept between calls):
+                # re-execute the calls recorded before it in this process as well, in their order
+                hist = [dict((k, v) for k, v in n["op"].items()) for n in nodes[max(1, target - 2001):target - 1]] + [rec["op"]]
+                out = os.path.join(ctx.scratch, "t", "confirm-%d-hist.lin.ndjson" % target)
+                ctx.replay_path(driver, variant, hist, out=out)
+                rr = ctx.tlc(module, cfg=cfg, env={"TRACE": out}, workers=1, xmx="2g")
+                if rr["rc"] == 12 and rr["mismatches"]:
+                    n2 = load_trace(out)
+                    t2 = min(rr["mismatches"])
+                    confirmed = (path_to(n2, t2), n2[t2 - 1])
+                elif rr["rc"] != 0 or rr["errors"]:
+                    raise Infra("re-validation failed: " + rr["out"][-1500:])
             if confirmed:
                 cpath, crec = confirmed
                 rp = write_replay(ctx, driver, variant, module, cpath, dict(res=crec["res"], proj=crec["proj"]))
